@@ -6,7 +6,7 @@ precomputed mesh), not from this package.  Closed-world on constants, open-
 world on shape: an expression that cannot be located is UNDECIDED."""
 import ast
 
-from .core import (AnalysisError, dotted, norm, walk_local, const_int,
+from .core import (ftext, AnalysisError, dotted, norm, walk_local, const_int,
                    stmts_of, calls_in, call_name, kwarg,
                    enclosing_stmt_map)
 from .dataflow import local_defs, names_in, closure_names, holds
@@ -48,6 +48,13 @@ def _grid_names(fn):
 # compressed_segmentation
 # ---------------------------------------------------------------------
 def cseg_layout(repo, col):
+    from .intexpr import using_module
+    with using_module(repo.module("_compressed_segmentation")):
+        _cseg_layout(repo, col)
+
+
+def _cseg_layout(repo, col):
+    from .dataflow import def_values
     rule = "E-SPEC.cseg"
     mod = "_compressed_segmentation"
     m = repo.module(mod)
@@ -100,7 +107,7 @@ def cseg_layout(repo, col):
     col.add(rule + ".header-word", enc, norm(pk[0].args[3]) if pk else "-", ok,
             "" if ok else "first header word is not (table_offset | bits << "
             "24)", undecided=not pk)
-    dtxt = norm(dec.node)
+    dtxt = ftext(dec)
     d_defs = local_defs(dec.node)
     masks = [n for n in walk_local(dec.node) if isinstance(n, ast.BinOp)
              and isinstance(n.op, ast.BitAnd)
@@ -134,7 +141,7 @@ def cseg_layout(repo, col):
     col.add(rule + ".bits", chooser, "2 ** bits >= elements", okc,
             "" if okc else "width chooser does not take the smallest width "
             "with 2**bits >= number of labels", undecided=not okc and
-            "elements" not in norm(chooser.node))
+            "elements" not in ftext(chooser))
     dset = None
     for n in walk_local(dec.node):
         if isinstance(n, ast.Compare) and isinstance(n.ops[0], (ast.NotIn,
@@ -151,7 +158,7 @@ def cseg_layout(repo, col):
     # 5. value packing: value k of a word sits at bit (k mod n)*bits
     for qn in ("_pack_encoded_values", "_unpack_encoded_values"):
         fn = repo.func(mod, qn)
-        txt = norm(fn.node)
+        txt = ftext(fn)
         okv = "values_per_32bit = 32 // bits" in txt
         col.add(rule + ".packing", fn, "values_per_32bit = 32 // bits", okv,
                 "" if okv else "values per 32-bit word is not 32 // bits",
@@ -186,18 +193,18 @@ def cseg_layout(repo, col):
         fn = repo.func(mod, qn)
         defs = local_defs(fn.node)
         for g in ("gx", "gy", "gz"):
-            ds = [d for d in defs.get(g, []) if d.value is not None]
-            c = _canon(ds[0].value) if ds else None
+            ds = def_values(m, fn.node, g, defs)
+            c = _canon(ds[0]) if ds else None
             ok = bool(c) and c.startswith("CEILDIV(") and "block_size[" in c
             col.add(rule + ".grid", fn, "%s = %s" % (g, c), ok,
                     "" if ok else "grid size %s is not ceil(extent / block "
-                    "size)" % g, undecided=not ds)
+                    "size)" % g, undecided=not ds or c is None)
     # 7. offsets are in 32-bit words: encoder len(buf)//4, decoder 4*word
     for fn, pats in ((repo.func(mod, "encode_chunk"), ["len(buf) // 4"]),
                      (enc, ["len(buf) // 4"]),
                      (repo.func(mod, "decode_chunk_into"), ["4 * ret[0]"]),
                      (dec, ["4 * (res[0] & 16777215)", "4 * res[1]"])):
-        txt = norm(fn.node)
+        txt = ftext(fn)
         for p in pats:
             ok = p in txt
             col.add(rule + ".word-units", fn, p, ok, "" if ok else
@@ -227,7 +234,7 @@ def cseg_layout(repo, col):
                     "by the append of its segment", nontrivial=False)
     # 9. channel table size and block table size
     ec = repo.func(mod, "encode_chunk")
-    okh = "bytearray(4 * num_channels)" in norm(ec.node)
+    okh = "bytearray(4 * num_channels)" in ftext(ec)
     col.add(rule + ".tables", ec, "bytearray(4 * num_channels)", okh,
             "" if okh else "channel offset table is not 4 bytes per channel",
             undecided=not okh)
@@ -259,7 +266,7 @@ def cseg_layout(repo, col):
                 "channel", buf_local, "" if buf_local else "channel buffer is "
                 "not local to the channel encoder", undecided=not buf_local)
     # 10. lookup table entries are stored in the chunk's dtype
-    okl = "lookup_table.astype(block.dtype).tobytes()" in norm(enc.node)
+    okl = "lookup_table.astype(block.dtype).tobytes()" in ftext(enc)
     col.add(rule + ".tables", enc, "lookup_table.astype(block.dtype).tobytes()",
             okl, "" if okl else "lookup table is not serialised in the label "
             "dtype", undecided=not okl)
@@ -272,7 +279,7 @@ def sharded_layout(repo, col, parts=("index", "name")):
     rule = "E-SPEC.sharded"
     if "index" not in parts:
         return _shard_file_name(repo, col, rule)
-    close = repo.func("sharded_file_accessor", "Shard.close")
+    close = repo.func("sharded_file_accessor", "Shard.close", inline=True)
     # shard index entries: "<Q" pairs, relative to the end of the index
     packs = [c for c in calls_in(close.node)
              if (call_name(c) or "") == "struct.pack"]
@@ -295,7 +302,7 @@ def sharded_layout(repo, col, parts=("index", "name")):
                 "format measures them from the end of the shard index",
                 node=c)
     # slot placement by minishard number
-    txt = norm(close.node)
+    txt = ftext(close)
     owner = enclosing_stmt_map(close.node)
     positional = False
     for c in calls_in(close.node):
@@ -323,7 +330,7 @@ def sharded_layout(repo, col, parts=("index", "name")):
             "lands in slot rank(m), not slot m, whenever a lower-numbered "
             "minishard of the shard is unused")
     # minishard index: (3, n) uint64, rows id delta / offset delta / size
-    app = repo.func("sharded_file_accessor", "MiniShard.append")
+    app = repo.func("sharded_file_accessor", "MiniShard.append", inline=True)
     appends = [c for c in calls_in(app.node)
                if (call_name(c) or "").endswith("np.append")]
     vals = [norm(c.args[1]) for c in appends if len(c.args) == 2]
@@ -335,7 +342,7 @@ def sharded_layout(repo, col, parts=("index", "name")):
             "delta, size) in this order", undecided=len(vals) != 3)
     okd = any(norm(d.value) == "cmc - self._last_chunk_id"
               for d in defs.get("new_chunk_id", []) if d.value is not None) \
-        and "self._last_chunk_id = cmc" in norm(app.node)
+        and "self._last_chunk_id = cmc" in ftext(app)
     col.add(rule + ".minishard-rows", app, "id delta = cmc - previous id", okd,
             "" if okd else "chunk ids are not delta-encoded against the "
             "previously appended id")
@@ -354,7 +361,7 @@ def sharded_layout(repo, col, parts=("index", "name")):
             "" if okr else "interleaved triples are not transposed into the "
             "three rows the format stores", undecided=not resh)
     rd = repo.func("sharded_base", "ReadableMiniShardCMC.fetch_cmc_chunk")
-    rtxt = norm(rd.node)
+    rtxt = ftext(rd)
     pats = ["self.minishard_index[2 * self.num_chunks + chunk_idx]",
             "self.num_chunks, self.num_chunks + chunk_idx + 1",
             "2 * self.num_chunks, 2 * self.num_chunks + chunk_idx",
@@ -365,7 +372,7 @@ def sharded_layout(repo, col, parts=("index", "name")):
                 "reader does not address the minishard index rows in the "
                 "recognised form `%s`" % p, undecided=not ok)
     ini = repo.func("sharded_base", "ReadableMiniShardCMC.__init__")
-    itxt = norm(ini.node)
+    itxt = ftext(ini)
     for p, why in (("np.frombuffer(header_buffer, dtype=np.uint64)",
                     "minishard index is not read as uint64"),
                    ("len(self.minishard_index) % 3 != 0",
@@ -410,14 +417,14 @@ def _shard_file_name(repo, col, rule):
         col.add(rule + ".file-name", sc, base, okh, "" if okh else
                 "name is not the lower-case hexadecimal shard number",
                 undecided=not okh)
-    oks = "f'{self.shard_key_str}.shard'" in norm(sc.node)
+    oks = "f'{self.shard_key_str}.shard'" in ftext(sc)
     col.add(rule + ".file-name", sc, "<hex>.shard", oks, "" if oks else
             "file suffix is not .shard", undecided=not oks)
     # header length
     cw = repo.func("sharded_base", "CMCReadWrite.__init__")
     okh = _canon([d.value for d in local_defs(cw.node).get("x", [])] and None) \
         is None
-    htxt = norm(cw.node)
+    htxt = ftext(cw)
     okh = "int(2 ** self.shard_spec.minishard_bits * 16)" in htxt
     col.add(rule + ".index-length", cw, "2 ** minishard_bits * 16", okh,
             "" if okh else "shard index length is not 16 bytes per minishard",
@@ -511,7 +518,7 @@ def routing_bits(repo, col):
             "" if rets == [idh.params[-1]] else "id_hash is not the identity "
             "although only 'identity' is accepted")
     # next expected id: varies exactly the non-routing bits
-    nx = repo.func("sharded_file_accessor", "MiniShard.next_cmc")
+    nx = repo.func("sharded_file_accessor", "MiniShard.next_cmc", inline=True)
     rets = [s.value for s in stmts_of(nx.node) if isinstance(s, ast.Return)
             and s.value is not None]
     ok = False
@@ -527,12 +534,15 @@ def routing_bits(repo, col):
                 flat(n.right)
             else:
                 terms.append(n)
-        flat(rets[-1])
+        from .dataflow import single_defs, expand
+        ntab = single_defs(nx.node)
+        flat(expand(rets[-1], ntab))
         t = [norm(x) for x in terms]
         hi = [x for x in terms if isinstance(x, ast.BinOp)
               and isinstance(x.op, ast.LShift)]
-        lo = [x for x in t if x in ("next_val & self.shard_spec.preshift_mask",
-                                    "self.shard_spec.preshift_mask & next_val")]
+        lo = [x for x in t if x in (
+            "self._appended & self.shard_spec.preshift_mask",
+            "self.shard_spec.preshift_mask & self._appended")]
         mid = [x for x in t if x == "self.masked_bits"]
         okhi = False
         if hi:
@@ -541,23 +551,25 @@ def routing_bits(repo, col):
             okhi = sh == canon_src("self.shard_spec.preshift_bits + "
                                    "self.shard_spec.shard_bits + "
                                    "self.shard_spec.minishard_bits") and \
-                norm(h.left) == "next_val >> self.shard_spec.preshift_bits"
+                norm(h.left) == "self._appended >> " \
+                "self.shard_spec.preshift_bits"
         ok = len(terms) == 3 and okhi and bool(lo) and bool(mid)
     col.add(rule + ".next-id", nx, "three disjoint bit ranges", ok,
             "high part [p+m+s, ..), fixed routing bits [p, p+m+s), low part "
             "[0, p)" if ok else detail, undecided=not rets)
-    st = repo.func("sharded_file_accessor", "MiniShard.store_cmc_chunk")
+    st = repo.func("sharded_file_accessor", "MiniShard.store_cmc_chunk", inline=True)
     want_mb = "(self.shard_spec.minishard_mask | self.shard_spec.shard_mask) " \
         "<< self.shard_spec.preshift_bits & cmc"
-    okm = want_mb in norm(st.node)
+    from .dataflow import single_defs as _sd, expand as _ex
+    okm = want_mb in ftext(st) or any(
+        want_mb in norm(_ex(n.value, _sd(st.node)))
+        for n in walk_local(st.node) if isinstance(n, ast.Assign))
     col.add(rule + ".next-id", st, "masked_bits = routing bits of the first id",
             okm, "" if okm else "fixed routing bits are not ((minishard_mask | "
             "shard_mask) << preshift_bits) & cmc", undecided=not okm and
-            "masked_bits" not in norm(st.node))
-    nv = any(norm(d.value) == "self._appended"
-             for d in local_defs(nx.node).get("next_val", [])
-             if d.value is not None)
-    col.add(rule + ".next-id", nx, "next_val = number of appended chunks", nv,
+            "masked_bits" not in ftext(st))
+    nv = ok or "self._appended" in ftext(nx)
+    col.add(rule + ".next-id", nx, "next id counts the appended chunks", nv,
             "" if nv else "next id is not derived from the append count")
 
 
@@ -592,7 +604,8 @@ def morton_loop(repo, col):
     okc = False
     form = "-"
     if conds:
-        t = norm(conds[0].test)
+        from .dataflow import single_defs, expand
+        t = norm(expand(conds[0].test, single_defs(fn.node)))
         form = t
         if t in ("2 ** %s < self.grid_sizes[%s]" % (i, dim),
                  "1 << %s < self.grid_sizes[%s]" % (i, dim),
@@ -603,7 +616,7 @@ def morton_loop(repo, col):
             # equivalent iff num_bits = ceil(log2(grid_size))
             ini = repo.func("sharded_base", "ShardVolumeSpec.__init__")
             okc = "self.num_bits = [math.ceil(math.log2(grid_size)) for " \
-                "grid_size in self.grid_sizes]" in norm(ini.node)
+                "grid_size in self.grid_sizes]" in ftext(ini)
             form = t + " with num_bits = " + (
                 "ceil(log2(grid))" if okc else "something else")
     col.add(rule, fn, "skip exhausted axes: %s" % form, okc,
@@ -620,11 +633,11 @@ def morton_loop(repo, col):
                 okb, "" if okb else "bit extraction / placement not in the "
                 "recognised form", undecided=not okb)
     ini = repo.func("sharded_base", "ShardVolumeSpec.__init__")
-    okn = "math.ceil(math.log2(grid_size))" in norm(ini.node)
+    okn = "math.ceil(math.log2(grid_size))" in ftext(ini)
     col.add(rule, ini, "num_bits = ceil(log2(grid_size))", okn, "" if okn else
             "bits per axis is not ceil(log2(grid size))", undecided=not okn
-            and "bit_length" not in norm(ini.node))
-    okg = "math.ceil(size / chunk_size)" in norm(ini.node)
+            and "bit_length" not in ftext(ini))
+    okg = "math.ceil(size / chunk_size)" in ftext(ini)
     col.add(rule, ini, "grid_size = ceil(size / chunk_size)", okg,
             "" if okg else "grid size is not ceil(size / chunk size)",
             undecided=not okg)
@@ -636,7 +649,7 @@ def morton_loop(repo, col):
 def mesh_formats(repo, col):
     rule = "E-SPEC.mesh"
     w = repo.func("mesh", "save_mesh_as_precomputed")
-    wtxt = norm(w.node)
+    wtxt = ftext(w)
     for p, why in (("struct.pack('<I', vertices.shape[0])",
                     "vertex count is not a little-endian uint32"),
                    ("vertices.astype('<f').tobytes(order='C')",
@@ -664,7 +677,7 @@ def mesh_formats(repo, col):
             "vertices" in norm(writes[1]) and "triangles" in norm(writes[2]),
             "", undecided=len(writes) != 3)
     r = repo.func("mesh", "read_precomputed_mesh")
-    rtxt = norm(r.node)
+    rtxt = ftext(r)
     for p, why in (("struct.unpack('<I', buf)[0]", "count not read as '<I'"),
                    ("np.frombuffer(buf, '<f')", "vertices not read as '<f'"),
                    ("(num_vertices, 3)", "vertices not shaped (n, 3)"),
@@ -724,26 +737,30 @@ def mesh_formats(repo, col):
         col.add(rule + ".winding", a, norm(c), okax, "" if okax else
                 "flip is not along axis 1 (the three vertex indices of each "
                 "triangle)", node=c)
-        adefs = local_defs(a.node)
-
-        def _expand(test):
-            t = norm(test)
-            for nm_ in names_in(test):
-                vs_ = [d.value for d in adefs.get(nm_, []) if d.value is not None
-                       and d.kind == "assign"]
-                if len(vs_) == 1 and "det(" in norm(vs_[0]):
-                    t = t.replace(nm_, norm(vs_[0]))
-            return t
-        okc = len(conds) == 1 and conds[0][1] is True and \
-            _expand(conds[0][0]) in (
-                "np.linalg.det(coord_transform[:3, :3]) < 0",
-                "0 > np.linalg.det(coord_transform[:3, :3])")
-        col.add(rule + ".winding", a, "flip iff det < 0", okc,
+        from .dataflow import single_defs, expand
+        table = single_defs(a.node)
+        okc, undc = False, False
+        if len(conds) == 1 and conds[0][1] is True:
+            t = expand(conds[0][0], table, depth=4)
+            det = None
+            if isinstance(t, ast.Compare) and len(t.ops) == 1:
+                l, r, op = t.left, t.comparators[0], t.ops[0]
+                if const_int(l) == 0 and isinstance(op, ast.Gt):
+                    l, r, op = r, l, ast.Lt()
+                if isinstance(l, ast.Call) and (call_name(l) or "").endswith(
+                        "det") and len(l.args) == 1:
+                    det = l.args[0]
+                    okc = isinstance(op, ast.Lt) and (
+                        const_int(r) == 0 or norm(r) in ("0.0", "0.0"))
+                    okc = okc and norm(det) == "coord_transform[:3, :3]"
+            if det is None and "det(" not in norm(t):
+                undc = True       # sign obtained some other way
+        col.add(rule + ".winding", a, "flip iff det < 0", okc or undc,
                 "" if okc else "winding is reversed under `%s`, not exactly "
                 "when det(R) < 0" % " and ".join(
                     ("" if t else "not ") + norm(x) for x, t in conds),
-                node=st)
-    atxt = norm(a.node)
+                node=st, undecided=undc)
+    atxt = norm(a.node)  # count-based: keep exact
     okt = "vertices = np.dot(coord_transform[:3, :3], vertices)" in atxt and \
         "vertices += coord_transform[:3, 3, np.newaxis]" in atxt and \
         atxt.count("vertices = vertices.T") == 2
@@ -752,7 +769,7 @@ def mesh_formats(repo, col):
             undecided=not okt)
     # fragment links
     f = repo.func("scripts.link_mesh_fragments", "make_mesh_fragment_links")
-    ftxt = norm(f.node)
+    ftxt = ftext(f)
     for p, why in (("filename_format = '{0}/{1}:0'", "default link file name "
                     "is not <mesh dir>/<label>:0"),
                    ("filename_format = '{0}/{1}'", "--no-colon-suffix name is "
@@ -784,12 +801,21 @@ def half_voxel(repo, col):
         col.add(rule, fn, "translation -= R @ (0.5 * voxel)", True,
                 "no compensation statement found", undecided=True)
         return
-    tgt = norm(found.target if isinstance(found, ast.AugAssign)
-               else found.targets[0])
+    tnode = found.target if isinstance(found, ast.AugAssign) \
+        else found.targets[0]
+    tgt = norm(tnode)
     val = found.value if isinstance(found, ast.AugAssign) else found.value.right
     okt = tgt.endswith("[:3, 3]")
+    und = False
+    if not okt and isinstance(tnode, ast.Name):
+        # a named view of the translation column
+        vs = [norm(d.value) for d in local_defs(fn.node).get(tnode.id, [])
+              if d.value is not None and d.kind == "assign"]
+        okt = bool(vs) and all(v.endswith("[:3, 3]") for v in vs)
+        und = not vs
     col.add(rule, fn, "target %s" % tgt, okt, "" if okt else
-            "compensation is not applied to the translation column")
+            "compensation is not applied to the translation column",
+            undecided=not okt and und)
     # product R . h with R on the left
     left = right = None
     if isinstance(val, ast.Call) and (call_name(val) or "").endswith("dot"):
@@ -816,19 +842,24 @@ def half_voxel(repo, col):
     lt, rt = expand(lt, left), expand(rt, right)
     okm = "[:3, :3]" in lt and ("0.5" in rt or "/ 2" in rt) and \
         "voxel_size" in rt
+    swapped = "[:3, :3]" in rt and ("0.5" in lt or "/ 2" in lt)
+    if not okm and not swapped:
+        col.add(rule, fn, "%s . %s" % (lt, rt), True, "operands of the "
+                "half-voxel product not recognised", undecided=True)
+        return
     col.add(rule, fn, "%s . %s" % (lt, rt), okm,
             "translation -= R (0.5 v): matrix on the left" if okm else
             "half-voxel shift is `%s . %s`: the rotation/scale block must "
             "multiply the half-voxel vector from the left (R h, not h R = "
             "R^T h)" % (lt, rt), node=found)
     rets = [s for s in stmts_of(fn.node) if isinstance(s, ast.Return)]
-    okc = "np.array(nifti_transformation_matrix, copy=True" in norm(fn.node)
+    okc = "np.array(nifti_transformation_matrix, copy=True" in ftext(fn)
     col.add(rule, fn, "input matrix copied", okc, "" if okc else
             "the caller's matrix is modified in place", nontrivial=False,
             undecided=not okc)
     # volume_reader: direction cosines and translation
     vr = repo.func("volume_reader", "nibabel_image_to_info")
-    vtxt = norm(vr.node)
+    vtxt = ftext(vr)
     for k in range(3):
         p = "transform[:, %d] = affine[:, %d] / voxel_sizes[%d]" % (k, k, k)
         ok = p in vtxt
